@@ -306,6 +306,92 @@ func oracleC19Win(c *CaseC19Win) *Failure {
 	return nil
 }
 
+// CaseC19Own: every goroutine owns one name and cycles Registry / Get / Remove / Get on it while the others do
+// the same on theirs (so writers contend heavily); readers look every name up and check what they get back.
+// Per-owner sequential facts must hold: my Registry of my free name succeeds; Get then returns mine; after my
+// Remove returned, Get misses; a reader never receives a service registered under another name.
+type CaseC19Own struct {
+	Procs   int `json:"gomaxprocs"`
+	Owners  int `json:"owners"`
+	Readers int `json:"readers"`
+	Iters   int `json:"iters"`
+}
+
+func oracleC19Own(c *CaseC19Own) *Failure {
+	saveBuiltins()
+	defer restoreBuiltins()
+	old := runtime.GOMAXPROCS(max(1, c.Procs))
+	defer runtime.GOMAXPROCS(old)
+	codec.Clear()
+	var wg sync.WaitGroup
+	var mu sync.Mutex
+	var first *Failure
+	var stop atomic.Bool
+	report := func(f *Failure) {
+		mu.Lock()
+		if first == nil {
+			first = f
+		}
+		mu.Unlock()
+		stop.Store(true)
+	}
+	names := make([]string, c.Owners)
+	for i := range names {
+		names[i] = fmt.Sprintf("OWN%d", i)
+	}
+	start := make(chan struct{})
+	for o := 0; o < c.Owners; o++ {
+		wg.Add(1)
+		go func(o int) {
+			defer wg.Done()
+			<-start
+			name := names[o]
+			for it := 0; it < c.Iters && !stop.Load(); it++ {
+				mine := &testSvc{name: name, id: o*1000000 + it + 1}
+				if !codec.Registry(mine) {
+					report(failf("C19/registry/lost-update", "owner %d, iteration %d: Registry(%s) returned false although only this goroutine uses the name and its previous Remove had returned", o, it, name))
+					return
+				}
+				s, ok := codec.Get(name)
+				if !ok || s != any(mine) {
+					report(failf("C19/registry/lost-update", "owner %d, iteration %d: after Registry(%s) returned true, Get returned (%v,%v) instead of the service just registered", o, it, name, s, ok))
+					return
+				}
+				codec.Remove(name)
+				if s, ok := codec.Get(name); ok {
+					report(failf("C19/registry/lost-update", "owner %d, iteration %d: after Remove(%s) returned, Get still returns %v", o, it, name, s))
+					return
+				}
+			}
+		}(o)
+	}
+	var rwg sync.WaitGroup
+	for r := 0; r < c.Readers; r++ {
+		rwg.Add(1)
+		go func(r int) {
+			defer rwg.Done()
+			<-start
+			for i := 0; !stop.Load(); i++ {
+				name := names[(i+r)%len(names)]
+				if s, ok := codec.Get(name); ok {
+					if ts, isT := s.(*testSvc); !isT || ts.name != name {
+						report(failf("C19/registry/wrong-service", "Get(%q) returned a service registered under another name: %v", name, s))
+						return
+					}
+				}
+				if i%4 == 3 {
+					runtime.Gosched()
+				}
+			}
+		}(r)
+	}
+	close(start)
+	wg.Wait()
+	stop.Store(true)
+	rwg.Wait()
+	return first
+}
+
 func genC19(rt *rapid.T) *CaseC19 {
 	c := &CaseC19{Procs: rapid.SampledFrom([]int{2, 4, 16}).Draw(rt, "procs"), Repeat: 4}
 	names := []string{"A", "B", "C"}[:rapid.IntRange(1, 3).Draw(rt, "nnames")]
@@ -337,6 +423,7 @@ func init() {
 		return oracleC19(c)
 	})
 	registerReplay("c19win", oracleC19Win)
+	registerReplay("c19own", oracleC19Own)
 }
 
 func TestC19(t *testing.T) {
@@ -358,6 +445,29 @@ func TestC19(t *testing.T) {
 				Col.Case(Hash64(JSONOf(c)), true, "contention-rounds")
 				Col.Class("contention-rounds-executed", int64(rounds))
 				Direct(t, "C19", "c19win", fmt.Sprintf("contention/%d/%d", procs, cont), c, oracleC19Win)
+			}
+		}
+	})
+	t.Run("owners", func(t *testing.T) {
+		iters := 30000
+		if Thorough() {
+			iters = 300000
+		}
+		i := 0
+		for _, procs := range []int{2, 4, 16} {
+			for _, cfg := range [][2]int{{8, 0}, {2, 4}, {3, 16}} {
+				i++
+				if !MyShare(i) {
+					continue
+				}
+				n := iters
+				if cfg[1] > 0 {
+					n = iters / 10 // with readers spinning on the lock every owner step is much slower
+				}
+				c := &CaseC19Own{Procs: procs, Owners: cfg[0], Readers: cfg[1], Iters: n}
+				Col.Case(Hash64(JSONOf(c)), true, "owner-cycles-under-contention")
+				Col.Class("owner-cycles-executed", int64(n*cfg[0]))
+				Direct(t, "C19", "c19own", fmt.Sprintf("owners/%d/%d/%d", procs, cfg[0], cfg[1]), c, oracleC19Own)
 			}
 		}
 	})
